@@ -81,11 +81,12 @@ CHECKS = {
    text=('Theorems: every regenerated daun/basex/dasch/rbasex transform is X *m A (row-wise, linear, row-independent); dr scaling '
          'from the regenerated Jacobian sites (daun incl. Tikhonov, basex incl. correction, dasch, onion_bordas; C04_dr_direct: the whole direct integral with and without correction); Hansen-Law recursion REGENERATED from the source and proved equal to the model (C04_hansenlaw_model_is_source); Hansen-Law '
          'recursion linear, row-wise and dr-scaling by induction over columns for arbitrary coefficient tables; NNLS solvers '
-         'positively homogeneous (solver by specification); symmetrisation linear (over the C06 model). Tie: translators + '
-         'numeric validation of generated terms + vm_compute runs of the Hansen-Law model against the implementation. Search: '
+         'positively homogeneous (solver by specification); onion_bordas peeling loop (hand-written executable model, arbitrary tables val1/val2) linear, '
+         'row-wise and 1/dr-scaling by induction over the width; symmetrisation linear (over the C06 model). Tie: translators + '
+         'numeric validation of generated terms + vm_compute runs of the Hansen-Law and onion_bordas models against the implementation (tables read from the running frame). Search: '
          'operator extraction on the implementation for all ten methods and the image tools (linearity with negative '
          'coefficients, row independence, dr, integer-typed images = float copies).'),
-   note=BASE_NOTE + 'Linearity of direct, onion_bordas, linbasex, rbasex image synthesis, set_center, radial_intensity, Distributions is checked on the implementation only; scipy.ndimage interpolation assumed linear; Hansen-Law Q instance rounds to 120 bits.',
+   note=BASE_NOTE + 'Linearity of direct, linbasex, rbasex image synthesis, set_center, radial_intensity, Distributions is checked on the implementation only (hansenlaw and the onion_bordas peeling loop are theorems about executable models with arbitrary tables, tied by vm_compute correspondence); scipy.ndimage interpolation (onion_bordas shift_grid, linbasex, centring) assumed linear; Hansen-Law / onion_bordas Q instances round to 120 bits.',
    technique='Coq proofs (mathcomp + induction) over regenerated expressions + operator extraction on implementation',
    design='DESIGN.md §3 C04'),
  'C07': dict(
